@@ -133,6 +133,15 @@ def _slack_case(rng, stream):
             ft[1].append([[xid], f64(1.0)])
             qt[1].append([[xid], 1])
         tag = "continuous"
+    elif fault < 0.12 and ft[0] == "quad":
+        # a continuous variable inside a quadratic entry (whatever the linear part is, present or absent)
+        ft[1][0].append(xid)
+        ft[1][1].append(ids[0])
+        ft[1][2].append(f64(1.0))
+        qt[1][0].append(xid)
+        qt[1][1].append(ids[0])
+        qt[1][2].append(1)
+        tag = "continuous"
     cons = [GI.constraint(3, 1, ["lin", [[[ids[0], f64(1.0)]], f64(0.0)]]), GI.constraint(cid, eq, ft, GI.meta(rng, "c"))]
     rng.shuffle(cons)
     all_dvs = dvs + [extra_dv]
@@ -147,9 +156,35 @@ def _slack_case(rng, stream):
     return inst, target, q, tag, well_conditioned
 
 
+def pure_quadratic_cases(rng, n):
+    """inequalities that are Quadratic messages WITHOUT linear part (c * x_a * x_b <= 0, as Quadratic::from_iter builds
+    them and partial evaluation leaves them), over integer / binary variables or with one continuous factor"""
+    out = []
+    for _ in range(n):
+        a, b, z = rng.sample(range(0, 9), 3)
+        kb = rng.choice([2, 2, 1, 3, 3])
+        dvs = [GI.dv(a, 2, (float(rng.randint(-2, 0)), float(rng.randint(1, 3)))),
+               GI.dv(b, kb, (0.0, 1.0) if kb == 1 else (float(rng.randint(-2, 0)), float(rng.randint(0, 2)))),
+               GI.dv(z, rng.choice([2, 3]), (0.0, 4.0))]
+        rng.shuffle(dvs)
+        rows, cols = ([a], [b]) if rng.random() < 0.5 else ([b], [a])
+        vals = [f64(float(rng.choice([-2, -1, 1, 2, 3])))]
+        if rng.random() < 0.3:
+            rows.append(a)
+            cols.append(a)
+            vals.append(f64(float(rng.choice([-1, 1]))))
+        ft = ["quad", [rows, cols, vals, []]]
+        cons = [GI.constraint(7, 2, ft)]
+        inst = [1, [["lin", [[[a, f64(1.0)]], f64(0.0)]]], dvs, cons, [], [], [], [], []]
+        tag = "continuous" if kb == 3 else "normal"
+        out.append({"op": "convert_slack", "input": [inst, 7, 100000, []], "stream": "convert/pure-quad/" + tag})
+        out.append({"op": "add_slack", "input": [inst, 7, rng.choice([1, 2, 4, 3]), []], "stream": "add/pure-quad/" + tag})
+    return out
+
+
 def gen(rng, tier):
     n = 150 if tier == "quick" else 2500
-    cases = []
+    cases = pure_quadratic_cases(rng, 20 if tier == "quick" else 300)
     for k in range(n):
         stream = rng.choice(["int", "quarter", "rational"])
         inst, target, q, tag = slack_case(rng, stream)
